@@ -142,6 +142,7 @@ def algebra_cases(draw, dim):
             op["big"], op["off"] = list(big), off
             shape = big
             lnom = LMAX  # zeros() declares every l up to Lmax
+            nlo, nhi = min(nlo, 0), max(nhi, 0)  # ... and the check lets its order range include 0
         elif name == "addterms":
             k = draw(st.integers(1, 2))
             ns = [nhi + 1 + j for j in range(k)]
@@ -532,6 +533,8 @@ def check_algebra(case):
             structural += 1
         elif name == "addterms":
             newref = ref.lincomb(refB, 1, 1)
+            if set(n for n, l in T.nl()) & set(t["n"] for t in op["B"]["terms"]):
+                raise HarnessError("case violates the documented precondition of addterms (orders must be new)")
             T.addterms(TB if k % 2 else TB.coefflist)
             compare(TB, refB, what + ": operand afterwards", totals_only=True)
             structural += 1
